@@ -109,12 +109,21 @@ def run(chk):
     d1 = cfg("ROWWISE", months=12, loads={"kind": "balanced", "scale": 40000.0, "seed": 3}, flow=("SYSTEM", 3.0))
     d2 = cfg(months=12, loads={"kind": "cooling", "scale": 26000.0, "seed": 2})
     d2["_changed_after_design"] = {"section": "loads", "values": {"synthetic": {"kind": "cooling", "scale": 65000.0, "seed": 2}}, "design_found_first": True}
-    for r in e2e_runs([d1, d2]):
+    # an undisturbed ground temperature of exactly 0 C (and a lower limit below it), on a manager that held another soil before
+    d3 = cfg(months=12, loads={"kind": "balanced", "scale": 9000.0, "seed": 5}, design={"min_eft": -8.0, "max_eft": 20.0}, flow=("BOREHOLE", 0.3))
+    d3["soil"] = dict(d3["soil"], undisturbed_temp=0.0)
+    d3["fluid"] = {"fluid_name": "PROPYLENEGLYCOL", "concentration_percent": 30.0, "temperature": 0}
+    d3["_changed_after_design"] = {"section": "soil", "values": {"undisturbed_temp": 8.0}, "design_found_first": False}
+    for r in e2e_runs([d1, d2, d3]):
         if not r.get("ok") or "reference" not in r:
             chk.broken.append({"name": "end-to-end run / reference failed", "detail": json.dumps({k: r.get(k) for k in ("exc", "msg", "reference_error")})})
             continue
         chk.cov["evaluations"] += 1
         nontrivial += 1
+        if "soil_ugt" in r and abs(r["soil_ugt"] - float(r["cfg"]["soil"]["undisturbed_temp"])) > 1e-12 and len(chk.violations) < 5:
+            chk.violation("design-temperatures", r["cfg"], {"ground_temperature_of_the_design": r["soil_ugt"]},
+                          f"the temperatures are computed from the requested undisturbed ground temperature {r['cfg']['soil']['undisturbed_temp']}")
+            continue
         a, b = r["hp_eft_head"], r["reference"]["hp_eft_head"]
         bad = [i for i in range(min(len(a), len(b))) if not (abs(a[i] - b[i]) <= 1e-9 * max(1.0, abs(b[i])))]
         if bad or len(a) != len(b):
